@@ -141,6 +141,9 @@ fn first_noulith_frame() -> String {
 
 fn install_panic_hook() {
     panic::set_hook(Box::new(|info| {
+        // the hook allocates (message, backtrace symbolisation): suspend the per-job allocation
+        // budget here, otherwise an allocation failure inside the hook deadlocks on the backtrace lock
+        let saved_budget = BUDGET.swap(usize::MAX, Ordering::Relaxed);
         let msg = if let Some(s) = info.payload().downcast_ref::<&str>() {
             s.to_string()
         } else if let Some(s) = info.payload().downcast_ref::<String>() {
@@ -163,6 +166,7 @@ fn install_panic_hook() {
             f
         });
         LAST_PANIC.with(|p| *p.borrow_mut() = Some((msg, loc, frame)));
+        BUDGET.store(saved_budget, Ordering::Relaxed);
     }));
 }
 
